@@ -345,6 +345,23 @@ theorem version_cache_counterexample :
        ok1.1 == .kafka 35 && ok1.2.cache.isNone && ok2.1 == .ok && ok2.2.conn.stream == [] && ok2.2.cache == some [(3, 0, 1)])) = some true := by
   decide
 
+/-- Everything a Conn carries from one operation to the next, and where each piece is accounted for — the fields of
+`type Conn struct`, regenerated.  A new field breaks `conn_state_accounted` until somebody has decided whether
+"the next operation behaves as on a fresh connection" speaks about it (the version cache was such a piece). -/
+def accountedFields : List (String × String) :=
+  [("conn", "the byte stream: Conn.stream / closed"), ("rbuf", "the byte stream (read buffer): Conn.stream; dropped on close: dropsBuffer"),
+   ("inflight", "LockFacts.leave, exitPath"), ("rlock", "LockFacts / released"), ("correlationID", "Conn.nextId"),
+   ("apiVersions", "VConn.cache (Model/ConnVersions.lean)"),
+   ("mutex", "guards offset"), ("offset", "the fetch position: C02 (Reader delivery) and C19 (Seek); every fetch of the C11 driver seeks first"),
+   ("wlock", "request side"), ("wbuf", "request side"), ("wb", "request side"),
+   ("wdeadline", "deadlines: observed (c17s, c11w, c2x), C06 models attach/detach"), ("rdeadline", "deadlines: observed, C06"),
+   ("clientID", "immutable"), ("topic", "immutable"), ("partition", "immutable"), ("fetchMaxBytes", "immutable"),
+   ("fetchMinSize", "immutable"), ("broker", "immutable"), ("rack", "immutable"), ("requiredAcks", "set by the caller, request side"),
+   ("transactionalID", "immutable")]
+
+theorem conn_state_accounted :
+    Gen.ConnLegacy.connFields.all (fun f => accountedFields.any (·.1 == f)) = true := by decide
+
 end Versions
 
 /-! ### nothing else reads the Conn's buffer
